@@ -536,6 +536,9 @@ def __Solver_1(simu: "_Simu", problemType: "ProblemType") -> _types.FloatArray:
     x0 = x0[dofsUnknown]
 
     lb, ub = simu.Get_lb_ub(problemType)
+    if len(lb) > 0:
+        # the bounds concern the unknown dofs only
+        lb, ub = lb[dofsUnknown], ub[dofsUnknown]
 
     bi -= Aic @ xc
     xi = _Solve_Axb(
